@@ -75,7 +75,7 @@ func (s *mpSys) checkMPListing() ([]*engine.Violation, int64) {
 	for i, u := range s.m.Uploads {
 		rank[u.ID] = i
 	}
-	for _, d := range []string{"", "/"} {
+	for _, d := range []string{"", "/", "cb"} { // "cb": more than one character, occurs in no key
 		for _, p := range []string{"", "a", "b", "b/"} {
 			base := ""
 			if p != "" {
@@ -123,6 +123,19 @@ func (s *mpSys) checkMPListing() ([]*engine.Violation, int64) {
 			if full.IsTruncated {
 				bad("list-uploads", "truncated", "unpaginated listing reports IsTruncated")
 				continue
+			}
+			// a key marker beyond the last key: nothing follows it
+			for _, q := range []string{drv.Q("key-marker", "zzz"), joinQ("max-uploads=1", drv.Q("key-marker", "zzz"))} {
+				pg := s.w.ListUploads(s.bucket, joinQ(base, q))
+				evals++
+				if pg.Panic != "" || pg.Status != 200 {
+					bad("marker-beyond-end", fmt.Sprintf("status=%d:%s%s", pg.Status, pg.Code, panicSigOf(pg.Panic)), "%s", q)
+					break
+				}
+				if pu, pc := pageItems(pg); len(pu) > 0 || len(pc) > 0 || pg.IsTruncated {
+					bad("marker-beyond-end", "not-empty", "%s: %s+%s trunc=%v next=(%q,%s) although no key sorts after the marker", q, renderUp(pu, rank), renderUp(pc, rank), pg.IsTruncated, pg.NextKey, pg.NextID)
+					break
+				}
 			}
 			// paging
 			n := len(exp)
